@@ -65,7 +65,7 @@ def gen_rates(rnd):
 
 def generate(rnd, tier):
     big = rnd.random() < 0.09
-    obj = c11.gen_source(rnd, "large" if big else rnd.choice(["tiny", "small", "small"]), False)
+    obj = c11.gen_source(rnd, "large" if big else rnd.choice(["tiny", "small", "small"]), False, allow_extreme=False)
     r_ = rnd.random()
     if not big and r_ < 0.2:
         # class sizes between the small and the large regime (41-130), and now and then very large ones
